@@ -80,7 +80,7 @@ static long insn_in_cycle, insn_limit;
 static int *p_next_user; static time_t *p_swap_next_time;
 
 #define MAXN 24
-typedef struct { char name[64]; int setup, gone, hboff, raised_hb; } obrec;
+typedef struct { char name[64]; int setup, gone, hboff; } obrec;
 static obrec obs_[MAXN]; static int nobs;
 static obrec *ob_rec (const char *name) {
   for (int i = 0; i < nobs; i++) if (!strcmp (obs_[i].name, name)) return &obs_[i];
@@ -198,7 +198,12 @@ static void end_of_cycle (void) {
   }
 }
 
-/* ------------------------------------------------------------------ canonical state (merging) */
+/* ------------------------------------------------------------------ canonical state (merging)
+ * OPTIONAL (--merge=1, default off) and NOT used by any tier of checks/C09.py: every (plan, history) pair of a tier is
+ * executed.  Kept for experiments: the form below covers the connection table, the scripted clients, the heart-beat
+ * table, the call_out wheel relative to now, the error-path flags, the rotating cursor of get_user_command(), the
+ * object list with reset/clean_up clocks, the plan object's variables and the harness model; it does not cover
+ * allocator free lists, the output ring positions or the internals of an open ed session. */
 static char canon[32768];
 static int cn;
 static void cadd (const char *fmt, ...) {
@@ -254,7 +259,7 @@ static void build_state (void) {
     cadd ("%s/%x/%ld/%ld/%d,", ob->name, ob->flags, nr, tr, ob->sent != 0);
   }
   cadd ("|model:");
-  for (int i = 0; i < nobs; i++) cadd ("%s/%d%d%d%d,", obs_[i].name, obs_[i].setup, obs_[i].gone, obs_[i].hboff, obs_[i].raised_hb);
+  for (int i = 0; i < nobs; i++) cadd ("%s/%d%d%d,", obs_[i].name, obs_[i].setup, obs_[i].gone, obs_[i].hboff);
   cadd ("hr=%d%d%d", hb_raised[0], hb_raised[1], hb_raised[2]); cadd (" lh=%d h0=%d", last_hb_id, hb0_off);
   if (env_console_capture && g_console_queue) cadd ("|cq");
 }
